@@ -1,12 +1,12 @@
 #!/bin/bash
-# tools/seeded_validate.sh <ID> <agent-worktree> [checks...]
+# tools/seeded_validate.sh <ID> <agent-worktree> [checks...]   (SEED_OUT=<dir> overrides <agent-worktree>/_out)
 # 1. in a fresh scratch worktree: the change compiles, the repository's 78 tests pass with it, the demonstration
 #    fails with it and passes without it;  2. apply it to /repo, run the quick checks, undo it straight afterwards;
 # 3. keep it as /verif/seeded/<ID>/ (patch.diff, seed_demo.rs, NOTES.md, meta.json).
 set -u
 ID="$1"; AWT="$2"; shift 2
 CHECKS=("$@"); [ ${#CHECKS[@]} -eq 0 ] && CHECKS=(C01 C02 C03 C04 C05 C06 C07 C08 C09 C10 C11 C12 C13 C14 C15 C16 C17 C18)
-OUT=$AWT/_out; [ -f $OUT/patch.diff ] && [ -f $OUT/seed_demo.rs ] || { echo "missing deliverables in $OUT"; exit 2; }
+OUT=${SEED_OUT:-$AWT/_out}; [ -f $OUT/patch.diff ] && [ -f $OUT/seed_demo.rs ] || { echo "missing deliverables in $OUT"; exit 2; }
 WT=/tmp/sv_$ID; TD=/tmp/sv_target
 git -C /repo worktree remove --force $WT 2>/dev/null
 git -C /repo worktree add -q --detach $WT HEAD || exit 2
